@@ -248,6 +248,7 @@ fn determinism_slice(seed: u64, workers: usize) -> (Vec<(stats::RunId, u64)>, u6
 /// bit for bit, and the run read back must execute to the same fingerprint.
 fn cmd_selftest(a: &Args) -> i32 {
     use spec::*;
+    start_watchdog(a);
     let mut rng = prng::SplitMix64::new(prng::mix(a.seed, 0x5E1F));
     let plans = vec![
         FaultPlan::None,
@@ -836,7 +837,8 @@ fn cmd_check(a: &Args) -> i32 {
                 harness.push(format!("single-precision builder mismatch did not reproduce from {}", path));
                 continue;
             }
-            println!("violation class=builder-mismatch solver-signature=builder-mismatch-f32:{} : {}", m.case.kind.name(), m.describe());
+            let cls = if m.got == model::Outcome::Panic { "builder-panic" } else { "builder-mismatch" };
+            println!("violation class={} solver-signature={}-f32:{} : {}", cls, cls, m.case.kind.name(), m.describe());
             println!("  chain: {}", m.case.to_json().to_string_compact());
             println!("VIOLATION property=C06 replay={}", path);
             probe32_reported += 1;
@@ -972,6 +974,7 @@ fn cmd_check(a: &Args) -> i32 {
             probe32: probe32_stats,
         };
         let mut j = evidence::evidence_json(&total, &meta);
+        let mut side_violations: Option<u64> = None;
         if let Some(side) = &a.side_evidence {
             // summary of the reduced pass made with the debug-assertions build just before
             if let Ok(text) = std::fs::read_to_string(side) {
@@ -980,6 +983,7 @@ fn cmd_check(a: &Args) -> i32 {
                         for (k, v) in top.iter_mut() {
                             if k == "coverage" {
                                 if let J::O(c) = v {
+                                    side_violations = sj.get("violations").and_then(|x| x.as_u64());
                                     let pick = |name: &str| cov.get(name).cloned().unwrap_or(J::Null);
                                     c.push((
                                         "debug_assertions_pass".to_string(),
@@ -998,6 +1002,14 @@ fn cmd_check(a: &Args) -> i32 {
                             }
                         }
                     }
+                }
+            }
+        }
+        if let (J::O(top), Some(sv)) = (&mut j, side_violations) {
+            // the verdict of the check is that of both passes
+            for (k, v) in top.iter_mut() {
+                if k == "violations" {
+                    *v = J::U(reported + sv);
                 }
             }
         }
@@ -1030,7 +1042,11 @@ fn cmd_check(a: &Args) -> i32 {
         }
         return 2;
     }
-    println!("C06 held on everything explored");
+    if lite {
+        println!("reduced pass (debug-assertions build): no violation");
+    } else {
+        println!("full pass (release build): no violation");
+    }
     0
 }
 
